@@ -1,5 +1,6 @@
 import PyramidModel.Prelude
 import PyramidModel.Lemmas.StaticSpec
+import PyramidModel.StaticUrl
 /-! Driver for C16: one JSON case per line, stateful (the file-system listing is set by an `fs` line).
 Texts travel as lists of code points.
 in : {"op":"fs","entries":[[path,isdir(bool),size],…]}                         → {"ok":n}
@@ -9,6 +10,10 @@ in : {"op":"fs","entries":[[path,isdir(bool),size],…]}                        
       "encs":[[enc,[ext,…]],…],"ae":null|[enc,…],"prefix":t,"path":[byte,…],"tuple":[t,…],"slash":b}
                                                                                → {"model":O,"spec":O,"tuple":…,"under":b}
      O = {"out":"urldecode"|"notfound"|"redirect"|"isdir"|"file","path":t|null,"enc":s|null,"vary":b}
+     {"op":"su","adds":[[name,spec],…],"prefix":t|null,"busters":[[spec,"q"|"m",explicit,param,token,[[k,v],…]],…],
+      "raw":[[pathspec,rawspec],…],"path":t,"static_path":b,"script_name":t,
+      "query":null|{"dict":b,"pairs":[[k,v],…]}|{"str":t}|{"null":true},"anchor":t|null}
+        → {"url":t|null,"err":s|null,"regs":[[url|null,spec,route],…],"busters":[[spec,explicit],…],"routes":[[name,lit],…]}
 -/
 open Pyr Pyr.Static Lean
 
@@ -54,6 +59,73 @@ def parseEncs (j : Json) : Except String (List (Enc × List Text)) :=
     | _ => throw "bad enc entry"
   | _ => throw "bad encs"
 
+def ot (j : Json) : Except String (Option Text) :=
+  match j with
+  | .null => pure none
+  | j => do
+    let ns : List Nat ← fromJson? j
+    pure (some (txt ns))
+
+def tOf (j : Json) : Except String Text := do
+  let ns : List Nat ← fromJson? j
+  pure (txt ns)
+
+def jarr (j : Json) : Except String (List Json) :=
+  match j with
+  | .arr xs => pure xs.toList
+  | _ => throw "array expected"
+
+def parsePairsT (j : Json) : Except String (List (Text × Text)) := do
+  (← jarr j).mapM fun p =>
+    match p with
+    | .arr #[k, v] => do pure ((← tOf k), (← tOf v))
+    | _ => throw "pair expected"
+
+def staticUrlOp (j : Json) : Except String Json := do
+  let adds ← parsePairsT (← getField j "adds")
+  let pfx ← ot (← getField j "prefix")
+  let bsj ← jarr (← getField j "busters")
+  let bs ← bsj.foldlM (fun (acc : List StaticUrl.BusterReg) b =>
+    match b with
+    | .arr #[sp, .str kind, .bool ex, pa, tk, mp] => do
+      let cb : StaticUrl.Buster ← if kind = "q" then do pure (StaticUrl.Buster.query (← tOf pa) (← tOf tk))
+        else do pure (StaticUrl.Buster.manifest (← parsePairsT mp))
+      pure (StaticUrl.addCacheBuster acc (← tOf sp) cb ex)
+    | _ => throw "bad buster") []
+  let raw ← parsePairsT (← getField j "raw")
+  let path ← getTxt j "path"
+  let sp : Bool ← getAs j "static_path"
+  let script ← getTxt j "script_name"
+  let qj ← getField j "query"
+  let (q, isDict) : Url.Query × Bool ← match qj with
+    | .null => pure (Url.Query.absent, false)
+    | qj =>
+      match qj.getObjVal? "pairs" with
+      | .ok pj => do
+        let d : Bool ← getAs qj "dict"
+        let ps ← parsePairsT pj
+        pure (Url.Query.pairs (ps.map fun p => (p.1, Url.QVal.one p.2)), d)
+      | .error _ =>
+        match qj.getObjVal? "str" with
+        | .ok sj => do pure (Url.Query.str (← tOf sj), false)
+        | .error _ => pure (Url.Query.null, false)
+  let anchor ← ot (← getField j "anchor")
+  let e : Url.Env := ⟨"http".toList, some "localhost:80".toList, "localhost".toList, "80".toList, script⟩
+  let regs := StaticUrl.registerAll pfx adds
+  let routes := StaticUrl.routesOf pfx adds
+  let o : Url.Ovr := { query := q, anchor := anchor.getD [] }
+  let o := if sp then { o with appUrl := some (Url.quotedScriptName e) } else o
+  let r := StaticUrl.generate e routes regs bs (fun p => raw.lookup p) path o isDict
+  let tagOf : Url.Err → String
+    | .keyError => "keyerror" | .noStatic => "nostatic" | .noCurrentRoute => "nocurrent" | .outside => "outside"
+  pure (Json.mkObj [
+    ("url", match r with | .ok u => cod u | .error _ => Json.null),
+    ("err", match r with | .ok _ => Json.null | .error er => Json.str (tagOf er)),
+    ("regs", Json.arr (regs.map fun r => Json.arr #[(match r.url with | some u => cod u | none => Json.null), cod r.spec, cod r.routeName]).toArray),
+    ("busters", Json.arr (bs.map fun b => Json.arr #[cod b.spec, Json.bool b.explicit]).toArray),
+    ("routes", Json.arr (routes.map fun r => Json.arr #[cod r.1,
+      (match r.2 with | Url.Piece.lit l :: _ => cod l | _ => Json.null)]).toArray)])
+
 def step (es : Entries) (j : Json) : Except String (Entries × Json) := do
   let op : String ← getAs j "op"
   match op with
@@ -71,6 +143,8 @@ def step (es : Entries) (j : Json) : Except String (Entries × Json) := do
         | _ => throw "bad entry"
       pure (es', Json.mkObj [("ok", toJson es'.length)])
     | _ => throw "bad entries"
+  | "su" => do
+    pure (es, (← staticUrlOp j))
   | "np" =>
     let a ← getTxt j "a"
     let b ← getTxt j "b"
